@@ -124,10 +124,38 @@ static bool has_redundant_group(const Dump &d) {
 // reference models of a derived replica: the distances list restarts from what the new replica reports (XML export lists homogeneous
 // matrices first, and equality with the source was just judged on the dumps); memattr and cpukind models carry information a dump
 // cannot show (forced efficiencies, which initiators are disjoint by construction), so they are inherited unless `fresh`
+// Documents for the fault machine (C06): the replica's export with <userdata> elements in it. A seeded handful of objects without application userdata
+// get a token for the duration of the export only (plain and base64 records of 0-50 bytes, named and anonymous), so that damaged documents also
+// exercise the importer's userdata path; the replica is left as it was.
+std::string export_with_userdata(World &w, Replica &R, bool v2, uint64_t sel) {
+  std::vector<hwloc_obj_t> lent; Rng g(sel);
+  if (R.adopted) return std::string();   // the objects of an adopted replica live in a read-only mapping
+  for (uint64_t gp : R.last.order) { hwloc_obj_t o = R.last.objs.at(gp).ptr; if (!o->userdata && g.chance(1, 4) && lent.size() < 12) { o->userdata = (void *)(uintptr_t)(50000 + g.below(40000)); lent.push_back(o); } }
+  std::string xml, path; int rc = 0; bool ok = export_xml(w, R, false, v2, xml, path, &rc);
+  for (hwloc_obj_t o : lent) o->userdata = nullptr;
+  return ok ? xml : std::string();
+}
+static volatile size_t g_sink;
+static void reading_import_cb(hwloc_topology_t, hwloc_obj_t obj, const char *name, const void *buffer, size_t length) {
+  size_t h = obj ? obj->gp_index : 0; if (name) h += strlen(name); const unsigned char *b = (const unsigned char *)buffer; for (size_t i = 0; i < length; i++) h = h * 31 + b[i]; g_sink = h;   // every delivered byte is read (ASan judges the bounds)
+}
+void install_reading_import_cb(hwloc_topology_t t) { hwloc_topology_set_userdata_import_callback(t, reading_import_cb); }
+
 void derive_models(World &w, int si, int di, bool fresh) {
   Replica &S = w.r[si], &D = w.r[di];
   models_init(w, di);
   if (!fresh) { if (S.mem_tracked && D.mem_tracked) D.memattrs = S.memattrs; if (S.kinds_tracked && D.kinds_tracked) D.kind_regs = S.kind_regs; }
+}
+
+// A replica-derivation oracle (dup: C12, XML restart: C05, shared memory: C19) is about to end a C13 / C14 / C15 run. "What was added survives dup, XML
+// round trip and adoption" is a clause of those properties themselves: if the section of the dump the run's own property speaks of (distances /
+// memory attributes / CPU kinds) is what differs between the source and the derived replica, the violation is the run's own.
+void own_section_first(World &w, const Dump &ds, const Dump &dd, const char *how) {
+  bool c13 = w.cfg.is("C13"), c14 = w.cfg.is("C14"), c15 = w.cfg.is("C15"); if (!c13 && !c14 && !c15) return;
+  auto sect = [&](const Dump &d) { std::vector<std::string> v; if (c13) for (auto &x : d.dists) v.push_back(x.text()); if (c14) for (auto &x : d.memattrs) v.push_back(x.text()); if (c15) for (auto &x : d.kinds) v.push_back(x.text()); std::sort(v.begin(), v.end()); std::string s; for (auto &x : v) s += x + "\n"; return s; };
+  std::string a = sect(ds), b = sect(dd); if (a == b) return;
+  std::string la, lb; first_diff(a, b, la, lb);
+  viol0(w, w.cfg.prop.c_str(), std::string(c13 ? "dist" : c14 ? "memattr" : "kinds") + ".not_preserved_by_" + how, "the %s reported by the %s replica differ from the source's: '%s' vs '%s'", c13 ? "distances" : c14 ? "memory attributes" : "CPU kinds", how, la.substr(0, 500).c_str(), lb.substr(0, 500).c_str());
 }
 
 bool ops_repl(World &w, const Op &o) {
@@ -148,6 +176,7 @@ bool ops_repl(World &w, const Op &o) {
     S.twin = di; D.twin = si; S.twin_kind = D.twin_kind = 1;
     Dump dd; take_dump(nt, dd, DUMP_FULL);
     std::string a = ds.text(), b = dd.text();
+    if (a != b) own_section_first(w, ds, dd, "dup");
     if (a != b) { std::string la, lb; first_diff(a, b, la, lb); viol0(w, "C12", "dup.dump_differs", "dup differs from its source: '%s' vs '%s'", la.c_str(), lb.c_str()); }
     // identical XML export
     std::string xa, xb, pa, pb; int r1, r2; std::vector<UdRec> ea, eb; g_exported = &ea; bool oka = export_xml(w, S, false, false, xa, pa, &r1, true); g_exported = &eb; bool okb = export_xml(w, D, false, false, xb, pb, &r2, true); g_exported = nullptr;
@@ -211,7 +240,8 @@ bool ops_repl(World &w, const Op &o) {
     Dump ds; take_dump(S.t, ds, DUMP_FULL);
     hwloc_topology_t nt = nullptr; hwloc_topology_init(&nt);
     hwloc_topology_set_all_types_filter(nt, HWLOC_TYPE_FILTER_KEEP_ALL);
-    unsigned long fl = S.flags & ~(unsigned long)(HWLOC_TOPOLOGY_FLAG_IS_THISSYSTEM | HWLOC_TOPOLOGY_FLAG_THISSYSTEM_ALLOWED_RESOURCES | HWLOC_TOPOLOGY_FLAG_RESTRICT_TO_CPUBINDING | HWLOC_TOPOLOGY_FLAG_RESTRICT_TO_MEMBINDING);
+    // "the same topology flags": IS_THISSYSTEM included (on an XML source it only selects the native binding hooks and their support bits; nothing is bound here)
+    unsigned long fl = S.flags & ~(unsigned long)(HWLOC_TOPOLOGY_FLAG_THISSYSTEM_ALLOWED_RESOURCES | HWLOC_TOPOLOGY_FLAG_RESTRICT_TO_CPUBINDING | HWLOC_TOPOLOGY_FLAG_RESTRICT_TO_MEMBINDING);
     hwloc_topology_set_flags(nt, fl);
     hwloc_topology_set_userdata_import_callback(nt, import_cb);
     g_imported = &imported;
@@ -250,6 +280,7 @@ bool ops_repl(World &w, const Op &o) {
     if (a != b && has_redundant_group(ds) && dd.depth < ds.depth) viol0(w, "C05", "xml.dump_differs.redundant_group_level", "the exported topology holds a mergeable Group with the cpuset of its parent/only child (inserted by insert_group_object); the reload merges that level (depth %d -> %d)", ds.depth, dd.depth);
     if (a != b && getenv("HWSIM_DIFFDIR")) { std::string d = getenv("HWSIM_DIFFDIR"); FILE *f = fopen((d + "/a.txt").c_str(), "w"); fputs(a.c_str(), f); fclose(f); f = fopen((d + "/b.txt").c_str(), "w"); fputs(b.c_str(), f); fclose(f); f = fopen((d + "/x.xml").c_str(), "w"); fputs(xml.c_str(), f); fclose(f); }
     if (a != b && has_overlapping_initiators(ds) && ds.aux_text(true) != dd.aux_text(true)) { Dump x = ds, y = dd; x.memattrs.clear(); y.memattrs.clear(); if (x.text(true) == y.text(true)) viol0(w, "C05", "xml.dump_differs.overlapping_memattr_initiators", "a memattr target holds cpuset initiators that are equal or overlap (narrowed by restrict); XML import re-adds them with set_value, which matches an existing initiator by inclusion and overwrites it"); }
+    if (a != b) own_section_first(w, ds, dd, "xml");
     if (a != b) { std::string la, lb; first_diff(a, b, la, lb); viol0(w, "C05", "xml.dump_differs", "reloaded topology differs from the exported one: '%s' vs '%s'", la.substr(0, 900).c_str(), lb.substr(0, 900).c_str()); }
     if (import_support && ds.support != dd.support) {
       // imported support = what was exported, plus the misc.imported_support marker
